@@ -277,20 +277,22 @@ Definition wf_failures (pv : Z) (f : failures) : bool :=
               && forallb (fun kv => wf_addr (fst kv) && wf_short (snd kv)) m
   end.
 Definition wf_wt (wt : Z) : bool := (0 <=? wt) && (wt <? 8).
+(* [consistency]: ANY .. LOCAL_ONE = 0x0000 .. 0x000A *)
+Definition wf_cl (cl : Z) : bool := (0 <=? cl) && (cl <=? 10).
 Definition wf_byte (d : Z) : bool := (0 <=? d) && (d <? 256).
 
 Definition wf_err (pv : Z) (e : err) : bool :=
   match e with
   | ErrSimple c => existsb (Z.eqb c) simple_codes
-  | ErrUnavailable cl rq al => wf_short cl && wf_int rq && wf_int al
+  | ErrUnavailable cl rq al => wf_cl cl && wf_int rq && wf_int al
   | ErrWriteTimeout cl rc bf wt ct =>
-    wf_short cl && wf_int rc && wf_int bf && wf_wt wt
+    wf_cl cl && wf_int rc && wf_int bf && wf_wt wt
     && Bool.eqb (is_some ct) (spec_cas_fields pv && (wt =? WT_CAS)) && match ct with Some c => wf_short c | None => true end
-  | ErrReadTimeout cl rc bf d => wf_short cl && wf_int rc && wf_int bf && wf_byte d
-  | ErrReadFailure cl rc bf f d => wf_short cl && wf_int rc && wf_int bf && wf_failures pv f && wf_byte d
+  | ErrReadTimeout cl rc bf d => wf_cl cl && wf_int rc && wf_int bf && wf_byte d
+  | ErrReadFailure cl rc bf f d => wf_cl cl && wf_int rc && wf_int bf && wf_failures pv f && wf_byte d
   | ErrFunctionFailure ks fn args => wf_string ks && wf_string fn && wf_string_list args
-  | ErrWriteFailure cl rc bf f wt => wf_short cl && wf_int rc && wf_int bf && wf_failures pv f && wf_wt wt
-  | ErrCasWriteUnknown cl rc bf => wf_short cl && wf_int rc && wf_int bf && spec_cas_fields pv
+  | ErrWriteFailure cl rc bf f wt => wf_cl cl && wf_int rc && wf_int bf && wf_failures pv f && wf_wt wt
+  | ErrCasWriteUnknown cl rc bf => wf_cl cl && wf_int rc && wf_int bf && spec_cas_fields pv
   | ErrAlreadyExists ks tb => wf_string ks && wf_string tb
   | ErrUnprepared id => wf_sbytes id
   end.
